@@ -916,6 +916,68 @@ func initCollide() {
 		}
 	}
 	strCollide = append(strCollide, "k0")
+	initFullCollide()
+}
+
+// fullCollide: per type, groups of DISTINCT keys whose *full* hash value (the value the type caches /
+// re-buckets with) is identical — they share a bucket at every table size, so only the key comparison
+// tells them apart.
+var fullCollide = map[string][][]key{}
+
+// crcPairs: pairs of distinct printable strings with the same hash.HashStr (CRC-32), found by a
+// deterministic birthday search over "c0", "c1", …
+func crcPairs(want int) [][]key {
+	// names: 8 characters of [A-Za-z0-9] drawn from a fixed LCG (decimal counters do not work: CRC-32 is
+	// affine and the few varying bits of same-length digit strings never cancel)
+	const alpha = "ABCDEFGHIJKLMNOPQRSTUVWXYZabcdefghijklmnopqrstuvwxyz0123456789"
+	seen := make(map[int32]string, 1<<19)
+	var out [][]key
+	x := uint64(0x9E3779B97F4A7C15)
+	buf := make([]byte, 8)
+	for i := 0; i < 4000000 && len(out) < want; i++ {
+		for j := range buf {
+			x = x*6364136223846793005 + 1442695040888963407
+			buf[j] = alpha[(x>>33)%uint64(len(alpha))]
+		}
+		s := string(buf)
+		h := hash.HashStr(s)
+		if p, ok := seen[h]; ok && p != s {
+			out = append(out, []key{{s: p}, {s: s}})
+		} else {
+			seen[h] = s
+		}
+	}
+	return out
+}
+
+// intKeyMapHash mirrors IntKeyMap.hash (only used to *find* candidate collisions; whether they
+// really collide does not matter for soundness, they are ordinary keys otherwise).
+func intKeyMapHash(h int32) uint {
+	ret := uint(h)
+	ret ^= (uint(h) >> 20) ^ (uint(h) >> 12)
+	ret = ret ^ (uint(h) >> 7) ^ (uint(h) >> 4)
+	return ret & uint(math.MaxInt32)
+}
+
+func initFullCollide() {
+	fullCollide["StringSet"] = crcPairs(5) // hash() = uint(hash.HashStr(key)), cached in StringSetry.hash
+	// IntKeyMap: hash = bit mix & MaxInt32: deterministic birthday search (negative keys sign-extend)
+	seen := make(map[uint]int32, 1<<19)
+	x := uint32(12345)
+	var gs [][]key
+	for i := 0; i < 3000000 && len(gs) < 5; i++ {
+		x = x*1664525 + 1013904223
+		k := int32(x)
+		h := intKeyMapHash(k)
+		if p, ok := seen[h]; ok && p != k {
+			gs = append(gs, []key{{i: int64(p)}, {i: int64(k)}})
+		} else {
+			seen[h] = k
+		}
+	}
+	fullCollide["IntKeyMap"] = gs
+	// IntIntMap / IntSet: hash = uint(key) is injective — no full collisions exist; keys that agree
+	// modulo every early table size (multiples of 101*203*407) are already in the pools
 }
 
 func keyPool(t *tdesc, r *vh.Rng) []key {
@@ -954,6 +1016,27 @@ func keyPool(t *tdesc, r *vh.Rng) []key {
 	pool := append([]key(nil), cand[:n]...)
 	if t.kkind == 's' && r.Chance(35) {
 		pool[0] = key{s: ""}
+	}
+	// whole groups of keys with an identical full hash
+	if gs := fullCollide[t.name]; len(gs) > 0 && r.Chance(50) {
+		have := map[key]bool{}
+		for _, k := range pool {
+			have[k] = true
+		}
+		for g := 0; g < 1+r.Intn(2); g++ {
+			for _, k := range gs[r.Intn(len(gs))] {
+				if !have[k] {
+					have[k] = true
+					pool = append(pool, k)
+				}
+			}
+		}
+		if r.Chance(40) { // a pool of colliding keys only
+			pool = pool[n:]
+			if len(pool) == 0 {
+				pool = append(pool, gs[0]...)
+			}
+		}
 	}
 	return pool
 }
@@ -1060,13 +1143,39 @@ func genGrowth(t *tdesc, r *vh.Rng, n int) []op {
 		}
 		return key{i: int64(int32(x))}
 	}
+	var gk []key
+	for _, g := range fullCollide[t.name] {
+		gk = append(gk, g...)
+	}
+	for _, k := range gk {
+		if r.Chance(70) {
+			ops = append(ops, op{code: "P", k: k, v: genVal(t, r)})
+		}
+	}
 	for i := 0; i < n; i++ {
+		if len(gk) > 0 && r.Chance(3) {
+			k := gk[r.Intn(len(gk))]
+			switch r.Intn(3) {
+			case 0:
+				ops = append(ops, op{code: "P", k: k, v: genVal(t, r)})
+			case 1:
+				ops = append(ops, op{code: "R", k: k})
+			default:
+				ops = append(ops, op{code: "CK", k: k})
+			}
+		}
 		ops = append(ops, op{code: "P", k: mk(i), v: genVal(t, r)})
 		if r.Chance(6) {
 			ops = append(ops, op{code: "R", k: mk(r.Intn(i + 1))})
 		}
 		if r.Chance(4) {
 			ops = append(ops, op{code: "CK", k: mk(r.Intn(i + 1))})
+		}
+	}
+	for _, k := range gk { // after all the growth: every colliding key is looked up, some removed
+		ops = append(ops, op{code: "CK", k: k})
+		if r.Chance(50) {
+			ops = append(ops, op{code: "R", k: k})
 		}
 	}
 	return ops
@@ -1195,6 +1304,19 @@ func main() {
 	rep.Rule = "one case = one history (constructor + ≤200 public operations, or a >2500-insert growth history) on IntIntMap, IntKeyMap, IntSet or StringSet; " +
 		"non-trivial = at least one operation changes the state; distinct = different canonical text (type, constructor, operation lines)"
 
+	for _, t := range types {
+		if gs := fullCollide[t.name]; len(gs) > 0 {
+			var names []string
+			for _, g := range gs {
+				var ks []string
+				for _, k := range g {
+					ks = append(ks, t.keyTok(k))
+				}
+				names = append(names, strings.Join(ks, "~"))
+			}
+			rep.Note("full-hash collision groups of %s: %s", t.name, strings.Join(names, " | "))
+		}
+	}
 	if env.Replay != "" {
 		replayFile(env, rep)
 		rep.Write(env.Out)
@@ -1346,6 +1468,9 @@ func main() {
 			}
 			rep.Case(sb.String(), nontriv)
 			rep.Count("type:" + h.t.name)
+			if touchesGroup(h.t, h.ops) {
+				rep.Count("history-with-full-hash-collision:" + h.t.name)
+			}
 			rep.Count("ctor:" + h.c.String())
 			rep.Count("history-length:" + bucket(len(h.steps)))
 			rep.Count("max-size:" + bucket(maxSize))
@@ -1494,6 +1619,26 @@ func readModelWire(t *tdesc, modelHex, modelEnts string) *verdict {
 			rc: replayCase{Got: got}}
 	}
 	return nil
+}
+
+// touchesGroup: does the history insert at least two distinct keys of one full-hash collision group?
+func touchesGroup(t *tdesc, ops []op) bool {
+	for _, g := range fullCollide[t.name] {
+		in := map[key]bool{}
+		for _, k := range g {
+			in[k] = true
+		}
+		put := map[key]bool{}
+		for _, o := range ops {
+			if (o.code == "P" || o.code == "A" || o.code == "U" || o.code == "AN") && in[o.k] {
+				put[o.k] = true
+			}
+		}
+		if len(put) >= 2 {
+			return true
+		}
+	}
+	return false
 }
 
 func bucket(n int) string {
